@@ -1005,6 +1005,204 @@ fn seg_reopen(run: &mut Runner, r: &mut R, stats: &mut serde_json::Value) {
     for t in &tabs { run.auto(&Stmt::Select(select_all(t))); }
 }
 
+/// C12: the same workload under different configurations.  The statements depend only on the workload seed; the
+/// configuration (page size, cache, pool, min keys, siblings) is drawn separately, so TLC validates the same
+/// statement sequence with the same admissible results for every configuration.
+fn seg_cfg(run: &mut Runner, wseed: u64, cfg: axmosdb::DBConfig, checkpoints: bool, stats: &mut serde_json::Value) {
+    let mut r = util::rng(wseed, 7);
+    let r = &mut r;
+    run.reset(cfg);
+    let small_page = cfg.page_size <= 8192;
+    // with 4/8 KiB pages the catalog must stay tiny (finding MetaTableSplitCorruptsCatalog): one table, no index
+    let mut tabs: Vec<Tab> = if small_page { vec![rand_table(r, "t1", false)] } else { let u = r.random_bool(0.5); vec![rand_table(r, "t1", u), rand_table(r, "t2", false)] };
+    for t in tabs.iter_mut() { run.auto(&Stmt::Create(t.def.clone())); }
+    // enough rows to need several pages, so that small caches evict
+    let rows = if small_page { 40 } else { 150 };
+    let nt = tabs.len();
+    for i in 0..rows {
+        if run.hung { return; }
+        let ti = i % nt;
+        let s = rand_insert(r, &mut tabs[ti], 0, 1, false);
+        if run.auto(&s).is_ok() { note_insert(&mut tabs[ti], &s); }
+        if checkpoints && i % 37 == 36 { run.flush(); }
+    }
+    let n = 25;
+    for i in 0..n {
+        if run.hung { return; }
+        let ti = r.random_range(0..nt);
+        match r.random_range(0..10) {
+            0 | 1 => { let s = rand_delete(r, &tabs[ti], 0, 1); run.auto(&s); }
+            2 if tabs[ti].updatable => { let s = rand_update(r, &tabs[ti], 0, 1); run.auto(&s); }
+            3 => { if run.begin(1).is_ok() { let s = rand_insert(r, &mut tabs[ti], 0, 1, false); run.stmt(1, &s); if r.random_bool(0.5) { run.rollback(1); } else if run.commit(1).is_ok() { note_insert(&mut tabs[ti], &s); } } }
+            4 | 5 => { let q = rand_select(r, &tabs, true); run.auto(&Stmt::Select(q)); }
+            _ => {
+                // aggregate over everything: touches every page
+                let t = &tabs[ti];
+                let sc = Scope(vec![(t, t.def.name.clone(), 0)]);
+                let mut q = select_all(t);
+                q.agg = true;
+                q.proj = vec![Proj::Agg("count*", lit_true()), Proj::Agg("sum", sc.any_col(r, &Ty::Int).unwrap()), Proj::Agg("min", col(t, &t.def.name, 0, 0)), Proj::Agg("max", col(t, &t.def.name, 0, 0))];
+                run.auto(&Stmt::Select(q));
+            }
+        }
+        if checkpoints && i % 9 == 8 { run.flush(); }
+    }
+    for t in &tabs { run.auto(&Stmt::Select(select_all(t))); }
+    stats["configs"] = json!(stats["configs"].as_u64().unwrap_or(0) + 1);
+}
+
+/// C15: DDL interleaved with DML, inside committed and rolled-back transactions, names reused, reopen at the end
+fn seg_ddl(run: &mut Runner, r: &mut R, stats: &mut serde_json::Value) {
+    run.reset(default_cfg());
+    let mut live: Vec<Tab> = vec![];
+    let mut counter = 0;
+    let names = ["a", "b", "c"];
+    let base = rand_table(r, "keep", false);
+    let mut keep = base.clone();
+    run.auto(&Stmt::Create(keep.def.clone()));
+    populate(run, r, &mut keep, 4);
+    let n = r.random_range(18..40);
+    for _ in 0..n {
+        if run.hung { return; }
+        counter += 1;
+        let in_session = r.random_bool(0.45);
+        let s: u32 = if in_session { 1 } else { 0 };
+        if in_session && !run.begin(1).is_ok() { continue; }
+        let exec = |run: &mut Runner, st: &Stmt| if s == 0 { run.auto(st) } else { run.stmt(s, st) };
+        let mut created: Vec<Tab> = vec![];
+        let mut dropped: Vec<String> = vec![];
+        let will_commit = !in_session || r.random_bool(0.55);
+        let k = r.random_range(1..4);
+        for _ in 0..k {
+            match r.random_range(0..10) {
+                0 | 1 | 2 => {
+                    // CREATE TABLE (fresh name, or one that exists: must be rejected)
+                    let name = *pick(r, &names);
+                    let exists = live.iter().any(|t| t.def.name == name) || created.iter().any(|t| t.def.name == name);
+                    let u = r.random_bool(0.3) && !exists;
+                    let mut t = rand_table(r, name, u);
+                    let o = exec(run, &Stmt::Create(t.def.clone()));
+                    if o.is_ok() {
+                        let st = rand_insert(r, &mut t, 0, 1, false);
+                        if exec(run, &st).is_ok() { note_insert(&mut t, &st); }
+                        created.push(t);
+                    }
+                }
+                // DROP only where it will be committed (finding DropRolledBackDestroysTable)
+                3 if will_commit && !live.is_empty() && !in_session => {
+                    let i = r.random_range(0..live.len());
+                    let name = live[i].def.name.clone();
+                    if exec(run, &Stmt::Drop(name.clone())).is_ok() { dropped.push(name); }
+                }
+                4 => { exec(run, &Stmt::Drop("nosuch".into())); }
+                5 | 6 => {
+                    // DML on another table in the same transaction
+                    let st = rand_insert(r, &mut keep, 0, 1, false);
+                    if exec(run, &st).is_ok() && will_commit { note_insert(&mut keep, &st); }
+                }
+                7 => {
+                    // a table created in this transaction is usable inside it
+                    if let Some(t) = created.last_mut() { let st = rand_insert(r, t, 0, 1, false); if exec(run, &st).is_ok() { note_insert(t, &st); } let q = select_all(t); exec(run, &Stmt::Select(q)); }
+                }
+                _ => {
+                    let all: Vec<&Tab> = live.iter().chain(created.iter()).collect();
+                    if !all.is_empty() { let t = *pick(r, &all); let q = select_all(t); exec(run, &Stmt::Select(q)); }
+                    // a name that does not exist (any more) must not resolve
+                    let name = *pick(r, &names);
+                    let known = live.iter().chain(created.iter()).any(|t| t.def.name == name) || dropped.iter().any(|d| d == name);
+                    if !known { exec(run, &Stmt::Select(Select { from: vec![FromItem { tbl: name.to_string(), alias: "z".into(), ncols: 1, jk: "first", on: lit_true() }], wher: lit_true(), has_where: false, agg: false, group: vec![], proj: vec![Proj::E(E::Col("z.id".into(), 1))], distinct: false, order: vec![], limit: -1, offset: 0, full_parens: false })); }
+                }
+            }
+        }
+        if in_session {
+            if will_commit { if run.commit(1).is_ok() { live.retain(|t| !dropped.contains(&t.def.name)); live.extend(created); } }
+            else { if r.random_bool(0.5) { run.rollback(1); } else { run.drop_session(1); } }
+        } else { live.retain(|t| !dropped.contains(&t.def.name)); live.extend(created); }
+        // other tables are never disturbed; every live table reads back
+        run.auto(&Stmt::Select(select_all(&keep)));
+        for t in &live { run.auto(&Stmt::Select(select_all(t))); }
+        if counter % 9 == 0 { run.reopen(default_cfg()); stats["reopens"] = json!(stats["reopens"].as_u64().unwrap_or(0) + 1); }
+    }
+    run.reopen(default_cfg());
+    run.auto(&Stmt::Select(select_all(&keep)));
+    for t in &live { run.auto(&Stmt::Select(select_all(t))); }
+}
+
+fn soup(r: &mut R) -> String {
+    let toks = ["SELECT", "FROM", "WHERE", "INSERT", "INTO", "VALUES", "DELETE", "CREATE", "TABLE", "INDEX", "UNIQUE", "AND", "OR", "NOT", "NULL", "IS", "IN", "BETWEEN", "LIKE",
+        "GROUP", "BY", "ORDER", "LIMIT", "OFFSET", "JOIN", "LEFT", "ON", "AS", "DISTINCT", "COUNT", "SUM", "(", ")", ",", "*", "+", "-", "/", "%", "=", "<", ">", "<=", "<>", "||", ";", ".",
+        "t1", "t2", "id", "c1", "c2", "1", "0", "-1", "99999999999999999999", "1.5", "'a'", "''", "'", "\"", "TRUE", "FALSE", "BEGIN", "COMMIT", "CASE", "WHEN", "THEN", "END", "EXISTS", "HAVING", "UNION", "\u{0}", "é", "🙂"];
+    let n = r.random_range(1..14);
+    (0..n).map(|_| *pick(r, &toks)).collect::<Vec<_>>().join(" ")
+}
+
+fn garbage(r: &mut R) -> String {
+    let n = r.random_range(0..40);
+    let bytes: Vec<u8> = (0..n).map(|_| r.random::<u8>()).collect();
+    String::from_utf8_lossy(&bytes).into_owned()
+}
+
+fn mutate(r: &mut R, sql: &str) -> String {
+    let mut toks: Vec<String> = sql.split(' ').map(String::from).collect();
+    match r.random_range(0..6) {
+        0 => { let k = r.random_range(0..toks.len()); toks.truncate(k); }
+        1 => { let k = r.random_range(0..toks.len()); toks.remove(k); }
+        2 => { let k = r.random_range(0..toks.len()); let t = toks[k].clone(); toks.insert(k, t); }
+        3 => { let k = r.random_range(0..toks.len()); toks[k] = "(".repeat(r.random_range(1..60)); }
+        4 => { let k = r.random_range(0..toks.len()); let j = r.random_range(0..toks.len()); toks.swap(k, j); }
+        _ => { let k = r.random_range(0..toks.len()); toks[k] = soup(r); }
+    }
+    toks.join(" ")
+}
+
+/// C16: any input yields a result or an error; the pool stays alive; the data is what it was.
+/// Every hostile input runs inside a session that is rolled back afterwards, so whatever it did must be gone.
+fn seg_fuzz(run: &mut Runner, r: &mut R, stats: &mut serde_json::Value) {
+    run.reset(default_cfg());
+    let mut tabs: Vec<Tab> = vec![rand_table(r, "t1", true), rand_table(r, "t2", false)];
+    for t in tabs.iter_mut() { t.updatable = false; run.auto(&Stmt::Create(t.def.clone())); populate(run, r, t, 6); }
+    let banned = ["UPDATE", "DROP", "ALTER", "VACUUM", "ANALYZE", "TRUNCATE"]; // effects that a rollback does not undo (recorded findings) or that are not statements
+    let n = r.random_range(40..90);
+    let mut inputs = 0u64;
+    for i in 0..n {
+        if run.hung { return; }
+        let valid = match r.random_range(0..3) { 0 => Stmt::Select(rand_select(r, &tabs, true)).sql(), 1 => rand_insert(r, &mut tabs[1].clone(), 0, 1, false).sql(), _ => rand_delete(r, &tabs[1], 0, 1).sql() };
+        let text = match r.random_range(0..10) {
+            0 | 1 => garbage(r),
+            2 | 3 | 4 => soup(r),
+            5 | 6 | 7 => mutate(r, &valid),
+            // well-formed but ill-typed / failing at run time
+            _ => pick(r, &["SELECT t1.id / 0 FROM t1", "SELECT t1.id % 0 FROM t1", "SELECT t1.c1 + 'a' FROM t1", "SELECT nosuch FROM t1", "SELECT t1.id FROM nosuch",
+                 "INSERT INTO t1 (id) VALUES (1, 2)", "INSERT INTO t1 (id) VALUES ('x')", "INSERT INTO t2 (id, c1) VALUES (99999999999999999999, 1)", "SELECT t1.id FROM t1 WHERE t1.id = 'a'",
+                 "SELECT -t1.id * 2147483647 * 2147483647 FROM t1", "SELECT t1.id FROM t1 LIMIT -1", "SELECT t1.id FROM t1 ORDER BY 99", "DELETE FROM t1 WHERE t1.id / 0 = 1",
+                 "SELECT COUNT(*) FROM t1 GROUP BY nosuch", "SELECT t1.id FROM t1 WHERE t1.id IN ()", "SELECT t1.id FROM t1 WHERE t1.c1 LIKE 5", "INSERT INTO t1 (id, c1) VALUES (NULL, NULL)",
+                 "SELECT (SELECT 1) FROM t1", "SELECT CASE WHEN t1.id = 1 THEN 1 ELSE 0 END FROM t1", "SELECT t1.id FROM t1 WHERE EXISTS (SELECT 1 FROM t2)"]).to_string(),
+        };
+        let up = text.to_uppercase();
+        if banned.iter().any(|b| up.contains(b)) { continue; }
+        inputs += 1;
+        let in_session = i % 3 != 0;
+        if in_session {
+            if !run.begin(1).is_ok() { continue; }
+            run.stmt(1, &Stmt::Opaque { sql: text, ro: true });
+            // the same session keeps working after the error (a read whose answer does not depend on what the input did)
+            let mut probe = select_all(&tabs[0]);
+            probe.wher = E::Bin("lt", Box::new(col(&tabs[0], &tabs[0].def.name, 0, 0)), Box::new(E::Lit(V::Int(-1000))));
+            probe.has_where = true;
+            run.stmt(1, &Stmt::Select(probe));
+            run.rollback(1);
+        } else {
+            // autocommit: only inputs that cannot change anything (they do not start with a DML / DDL keyword)
+            let first = up.trim_start().split(' ').next().unwrap_or("").to_string();
+            if ["INSERT", "DELETE", "CREATE"].contains(&first.as_str()) { continue; }
+            run.auto(&Stmt::Opaque { sql: text, ro: true });
+        }
+        // liveness: more trivial statements than the pool has workers
+        for _ in 0..3 { run.auto(&Stmt::Select(select_all(&tabs[r.random_range(0..2)]))); }
+    }
+    stats["inputs"] = json!(stats["inputs"].as_u64().unwrap_or(0) + inputs);
+}
+
 pub fn main(a: &Args) -> i32 {
     crate::eng::install_panic_hook();
     let seed = a.num("seed", 1);
@@ -1028,6 +1226,16 @@ pub fn main(a: &Args) -> i32 {
             "plan" => seg_plan(&mut run, &mut r, &mut stats),
             "vac" => seg_vac(&mut run, &mut r, &mut stats),
             "reopen" => seg_reopen(&mut run, &mut r, &mut stats),
+            "cfg" => {
+                // one workload (seed-determined), several configurations: segment index picks the configuration
+                let mut cr = util::rng(seed / 8, 99);
+                let wseed = seed / 8;
+                let grid: Vec<axmosdb::DBConfig> = (0..8).map(|i| if i == 0 { default_cfg() } else { rand_cfg(&mut cr, true) }).collect();
+                let c = grid[((seed % 8) as usize + done) % 8];
+                seg_cfg(&mut run, wseed, c, (seed / 8) % 2 == 0, &mut stats);
+            }
+            "ddl" => seg_ddl(&mut run, &mut r, &mut stats),
+            "fuzz" => seg_fuzz(&mut run, &mut r, &mut stats),
             other => { eprintln!("unknown kind {other}"); return 2; }
         }
         if run.hung { break; }
@@ -1036,6 +1244,9 @@ pub fn main(a: &Args) -> i32 {
     let (events, stmts, errors, panics, hung) = run.finish();
     let mut out = json!({"kind": kind, "segments": done, "events": events, "stmts": stmts, "errors": errors, "panics": panics, "hung": hung, "enumerated": extra});
     if let Some(m) = stats.as_object() { for (k, v) in m { out[k] = v.clone(); } }
+    let mut hits = crate::eng::KNOWN_PANIC_HITS.lock().unwrap().clone();
+    hits.sort(); hits.dedup();
+    out["known_panic_hits"] = json!(hits);
     println!("{}", out);
     0
 }
